@@ -345,6 +345,7 @@ func c03Check(c c03Case) *Violation {
 	}
 	got := byLabel(out.Features())
 	total := 0
+	counted := map[string]bool{}
 	for _, f := range c.Feats {
 		d := den(f.Loc)
 		res := residues(d)
@@ -356,26 +357,30 @@ func c03Check(c c03Case) *Violation {
 			}
 		}
 		gg := got[f.label()]
-		total += len(gg)
-		if len(gg) > 1 {
-			return viol("presence", "%s: feature %s present %d times", name, f.label(), len(gg))
+		m := multOf(c.Feats, f) // a table may list a feature twice verbatim: both entries share one fate
+		if !counted[f.label()] {
+			counted[f.label()] = true
+			total += len(gg)
+		}
+		if len(gg) != 0 && len(gg) != m {
+			return viol("presence", "%s: feature %s present %d times, listed %d times", name, f.label(), len(gg), m)
 		}
 		what := fmt.Sprintf("%s feature %s %s", name, f.label(), f.Loc)
 		// --- survival
 		switch c.Op {
 		case "delete":
-			if len(gg) != 1 {
+			if len(gg) != m {
 				return viol("survival", "%s: dropped by Delete", what)
 			}
 		case "erase":
-			if f.Key == "source" && len(gg) != 1 {
+			if f.Key == "source" && len(gg) != m {
 				return viol("survival", "%s: source feature dropped by Erase", what)
 			}
 			if !sites && len(res) > 0 {
 				if survivors == 0 && f.Key != "source" && len(gg) != 0 {
 					return viol("survival", "%s: lost all its residues but was kept by Erase as %s", what, gg[0].Loc)
 				}
-				if survivors > 0 && len(gg) != 1 {
+				if survivors > 0 && len(gg) != m {
 					return viol("survival", "%s: still has residues but was dropped by Erase", what)
 				}
 			}
@@ -386,7 +391,7 @@ func c03Check(c c03Case) *Violation {
 				if survivors == 0 && len(gg) != 0 {
 					return viol("survival", "%s: has no residue in the window but was kept as %s", what, gg[0].Loc)
 				}
-				if survivors > 0 && len(gg) != 1 {
+				if survivors > 0 && len(gg) != m {
 					return viol("survival", "%s: has residues in the window but was dropped", what)
 				}
 			}
@@ -648,7 +653,7 @@ func c03Gen(t *rapid.T) c03Case {
 		hot = hotAround(L, i, n)
 	}
 	cfg := locCfg{L: L, Hot: hot, MaxDepth: 3, MaxParts: scopeParts(4), Ambig: true, Sites: true}
-	c.Feats = genFeats(t, cfg, drawCount(t, 0, 4, 9, "nfeat"), "f", true)
+	c.Feats = addTwins(t, genFeats(t, cfg, drawCount(t, 0, 4, 9, "nfeat"), "f", true), "f")
 	if c.Op == "slice" {
 		if s, _, wrap := c.window(); wrap {
 			for k := range c.Feats {
@@ -674,6 +679,10 @@ func TestC03(t *testing.T) {
 		return
 	}
 	rapidLargePart(t, c03Prop, st, pick(1500, 20000), c03Gen)
+	if t.Failed() {
+		return
+	}
+	rapidTwinsPart(t, c03Prop, st, pick(3000, 30000), c03Gen)
 	if t.Failed() {
 		return
 	}
